@@ -32,6 +32,10 @@ def err_name(name):
 
 def err_class(exc):
     from joserfc import errors as E
+    # "the error of the matching class": a handler for any other of the four classes must not catch it too
+    hit = [c.__name__ for c in (E.MissingClaimError, E.InvalidClaimError, E.ExpiredTokenError, E.InvalidTokenError) if isinstance(exc, c)]
+    if len(hit) > 1:
+        return "other:matches-several-classes:" + "+".join(hit)
     if isinstance(exc, E.MissingClaimError):
         return rc.MISSING
     if isinstance(exc, E.InvalidClaimError):
